@@ -7,11 +7,35 @@ VERIF = os.path.dirname(os.path.dirname(os.path.abspath(__file__)))
 
 # pid -> (category, technique, text, note, design_ref)
 CHECKS = {
+    "C05": ("other", "effect pairing on resolved MIR: write primitives discovered by callee, pointer provenance classification, post-dominating mark_dirty with agreeing extent; derivation offset agreement; forwarder agreement; raw-handle exemption table",
+            "For every guest-memory write in every feature configuration (incl. mmap/Xen code no baseline test compiles) a mark on the owning accessor's bitmap post-dominates the write with a covering extent, and every accessor derivation moves pointer and bitmap by the same offset: soundness of tracking for all operations, offsets, lengths and derivation chains by induction. Page arithmetic inside AtomicBitmap is covered by C09/C16 form rules only.",
+            "Trusted: libc::read writes at most count bytes; atomics; unsafe-constructor contracts; rustc MIR. Does not decide the page-division identity.", "DESIGN.md §3 C05"),
+    "C07": ("other", "exhaustive panic-edge / silent-wrap census over all MIR bodies with dominating-fact discharge and a reviewed-edge table; loop-shape recognition",
+            "Every Assert terminator, diverging call, may-panic callee, wrapping/saturating call and narrowing cast in every non-derived body of FULL and XEN is either discharged by a dominating branch fact or matches a reviewed, reasoned table row; every loop has a recognised terminating shape. A new or newly unguarded edge is a violation. Stronger than reachability from sampled entry points; weaker than a proof in that table rows are reviewed judgements.",
+            "Trusted: std/libc callees off the may-panic list are total; allocation failure, stack overflow, foreign trait impls out of scope; the reviewed table.", "DESIGN.md §3 C07"),
+    "C08": ("proof", "site census of all atomic operations on bitmap words + term-level checks (single RMW, single-bit masks, harvest returns the RMW's own result, no load->RMW data dependence)",
+            "Given the RMW total order of atomics, the enumerated structural conditions imply that no mark is lost and no unset bit is harvested under every interleaving — a quantifier over schedules that tests cannot cover.",
+            "Trusted: C++/Rust atomics semantics; Vec indexing; rustc MIR.", "DESIGN.md §3 C08"),
+    "C09": ("other", "dominance + unit/endpoint form rules on AtomicBitmap: guarded word access, div_ceil sizing agreement between new/enlarge/Clone, inclusive-last range form, forwarders",
+            "Decides the form clauses (strict page<size guards on the same page term, page->word/bit units, ceil sizing, inclusive last page behind len!=0, offset-adding slices). The identity 'first..=last = overlapped pages' for all values is not decided.",
+            "Trusted: core div_ceil/saturating_add/RangeInclusive/Vec; atomics.", "DESIGN.md §3 C09"),
+    "C16": ("other", "call-graph effect analysis (no marking effect reachable from any non-writing route), strict extent agreement (transferred count), mark-after-write dominance, orphan-mark census",
+            "From every read/query/derivation/stream-out route of all three layers no marking body is reachable (trait dispatch over-approximated); every mark is paired with a dominating write and uses the transferred count; the only mark-everything branch is the failed descriptor read.",
+            "Trusted: call-graph over-approximation is sound for local code; page arithmetic identity not decided.", "DESIGN.md §3 C16"),
+    "C17": ("other", "unit typing of guard lengths, provenance of every raw guest access (must be a guard of its accessor), MIR guard liveness, Xen window ownership/forwarding/arithmetic form",
+            "Structural necessary conditions for every accessor kind and element type in FULL and XEN (the Xen backend is compiled by no baseline test). Three reference-returning APIs are recorded as open known findings (F2b).",
+            "Trusted: gntdev/munmap behaviour; Rust drop semantics; rustc MIR.", "DESIGN.md §3 C17"),
+    "C18": ("other", "dominance check recursive over delegation on every Bytes::read/write impl; zero-size guard on every division/offset_from by size_of::<T>()",
+            "For every layer the empty-buffer edge returns Ok(0) before any fallible step, or the body forwards unconditionally to one that does; ZST arithmetic is guarded. For all addresses including unmapped ones.",
+            "Trusted: tabled-infallible steps between layers; rustc MIR.", "DESIGN.md §3 C18"),
     "C19": ("proof", "MIR term matching of every Address method against the core integer intrinsic it must be; derive/field facts; compile-fail witnesses",
             "Each operation of both address types is shown, on the resolved MIR, to be the same-named core integer intrinsic applied to the raw "
             "values in the documented operand order and re-wrapped; derived Ord/Eq on a single-field struct; align-up has the mask form behind its "
             "asserts. Modulo the trusted intrinsics that structural mapping is the property for all 2^64 x 2^64 operands, which no test can enumerate.",
             "Trusted: core integer intrinsics, Option::map, derive semantics, rustc MIR construction. Values are not computed.", "DESIGN.md §3 C19"),
+    "C20": ("proof", "byte-order typestate over MIR terms for all eight wrappers; compiler layout facts; const-assert and compile-fail witnesses",
+            "Every constructor stores a value tagged as the type name declares, every extractor returns native, both mixed PartialEq impls compare equal tags, no other body touches the field; repr(transparent) and layout_of give size/alignment. Modulo the trusted to_le/to_be intrinsics this is the property for every value.",
+            "Trusted: core to_le/to_be/from_le/from_be, rustc layout computation.", "DESIGN.md §3 C20"),
 }
 
 NOT_APPLICABLE = {}
